@@ -42,6 +42,10 @@ class Scenario:
   nondeterministic: bool = False   # real OS threads: a failure is confirmed by reruns
   shrink_s: dict = dc.field(default_factory=lambda: {'quick': 45.0, 'thorough': 240.0})
   setup: Callable[[], None] | None = None
+  # supplementary coverage-guided engine (atheris): decode(FuzzedDataProvider) -> case | None; runs per tier; modules to instrument
+  decode: Callable[[Any], Any] | None = None
+  fuzz_runs: dict = dc.field(default_factory=dict)
+  instrument: tuple = ('ml_metrics',)
 
 
 def canonical(case) -> str:
